@@ -117,6 +117,8 @@ type builtBlock struct {
 	fork    int
 }
 
+type common2Output = common2.Output
+
 var globalRefs = map[string]common2.Output{} // every output a vote-cancelling input may refer to
 
 // build turns the items of one block into transactions, given the chain view before the block.
@@ -335,30 +337,21 @@ func refLookup(tx interfaces.Transaction) (map[*common2.Input]common2.Output, er
 
 // snapshot: the live key frame (every field, also those State.snapshot() leaves out),
 // the arbiters' check point without its copy of the key frame, and the degradation state.
-func (in *inst) dump() dump {
-	d := make(dump, 512)
+func (in *inst) dump() *dump {
+	d := &dump{e: make([]kv, 0, 256)}
 	walk(reflectOf(in.arb.State.StateKeyFrame), "KeyFrame", d, 0)
 	cp := in.arb.Snapshot()
 	cp.StateKeyFrame = state.StateKeyFrame{}
 	walk(reflectOf(cp), "CheckPoint", d, 0)
-	for k := range d {
-		if strings.HasPrefix(k, "CheckPoint.StateKeyFrame") {
-			delete(d, k)
+	keep := d.e[:0]
+	for _, e := range d.e {
+		if !strings.HasPrefix(e.k, "CheckPoint.StateKeyFrame") {
+			keep = append(keep, e)
 		}
 	}
-	if len(d) > 3000 && os.Getenv("DPOS_DEBUG") != "" {
-		cnt := map[string]int{}
-		for k := range d {
-			cnt[fieldClass(k)]++
-		}
-		for k, v := range cnt {
-			if v > 100 {
-				fmt.Fprintln(os.Stderr, "BIGDUMP", len(d), v, k)
-			}
-		}
-	}
-	d["History.height"] = fmt.Sprint(in.arb.State.History.Height())
-	d["ArbitersHistory.height"] = fmt.Sprint(in.arb.History.Height())
+	d.e = keep
+	d.set("History.height", fmt.Sprint(in.arb.State.History.Height()))
+	d.set("ArbitersHistory.height", fmt.Sprint(in.arb.History.Height()))
 	return d
 }
 
@@ -581,6 +574,7 @@ type ctx struct {
 	span          int
 	stats         map[string]int
 	seenTwoStatus map[string]bool
+	attrCache     map[string]string // (field class | kinds of the blamed block) -> kind that is enough on its own
 }
 
 func kindsOf(items []item) string {
@@ -639,23 +633,28 @@ func blame(items []item, path string) string {
 
 // directDumps: one instance processes the chain block by block; res[h] is the dump
 // after height h (res[0]: fresh instance).
-func directDumps(chain []*builtBlock) ([]dump, error) {
+func directDumps(chain []*builtBlock, from int) ([]*dump, error) {
 	in := newInst()
 	defer in.free()
 	in.arb.State.GetTxReference = refLookup
-	res := []dump{in.dump()}
-	for _, bb := range chain {
+	res := make([]*dump, len(chain)+1)
+	if from <= 0 {
+		res[0] = in.dump()
+	}
+	for i, bb := range chain {
 		if err := in.process(bb); err != nil {
 			return nil, err
 		}
-		res = append(res, in.dump())
+		if i+1 >= from {
+			res[i+1] = in.dump()
+		}
 	}
 	return res, nil
 }
 
 // differential: roll a full instance back to t and compare with the direct build.
 // The caller frees the returned instance.
-func differential(chain []*builtBlock, t int, dd []dump) ([]diffEntry, *inst, error) {
+func differential(chain []*builtBlock, t int, dd []*dump) ([]diffEntry, *inst, error) {
 	a, err := buildDirect(chain)
 	if err != nil {
 		a.free()
@@ -668,7 +667,7 @@ func differential(chain []*builtBlock, t int, dd []dump) ([]diffEntry, *inst, er
 	return diffDumps(a.dump(), dd[t]), a, nil
 }
 
-func reportDiffs(c *ctx, chain []*builtBlock, t int, diffs []diffEntry, where string, caseInfo map[string]interface{}, dd []dump) {
+func reportDiffs(c *ctx, chain []*builtBlock, t int, diffs []diffEntry, where string, caseInfo map[string]interface{}, dd []*dump) {
 	// attribute: the smallest rollback that already shows the difference class
 	byClass := map[string]diffEntry{}
 	for _, d := range diffs {
@@ -700,13 +699,16 @@ func reportDiffs(c *ctx, chain []*builtBlock, t int, diffs []diffEntry, where st
 			}
 		}
 		kinds := blame(chain[blamed-1].items, d.Path)
-		if bb := chain[blamed-1]; len(bb.items) >= 2 && bb.before != nil {
+		cacheKey := cl + "|" + kinds
+		if k, ok := c.attrCache[cacheKey]; ok {
+			kinds = k
+		} else if bb := chain[blamed-1]; len(bb.items) >= 2 && bb.before != nil {
 			// which item alone is enough?  (every item of a block is valid on its own: all are
 			// checked against the pre-block state)
 			for _, it := range bb.items {
 				variant := build(bb.height, []item{it}, bb.nid, bb.before, bb.fork)
 				ch := append(append([]*builtBlock{}, chain[:blamed-1]...), variant)
-				dd2, err := directDumps(ch)
+				dd2, err := directDumps(ch, blamed-1)
 				if err != nil {
 					continue
 				}
@@ -726,6 +728,7 @@ func reportDiffs(c *ctx, chain []*builtBlock, t int, diffs []diffEntry, where st
 					break
 				}
 			}
+			c.attrCache[cacheKey] = kinds
 		}
 		key := "C21:rollback-diff:" + cl + ":" + kinds
 		rep.Violation(key, fmt.Sprintf("%s: after RollbackTo(%d) from height %d the field %s is %q, the state built directly from the blocks <= %d has %q "+
@@ -761,6 +764,7 @@ func replayOne(c *ctx, idx int) bool {
 			height = t
 			fork++
 		}
+		// "Checkpoint" steps (C23) change nothing: see the checkpoint mode
 	}
 	// pass 2: drive the real code
 	A := newInst()
@@ -856,7 +860,7 @@ func replayOne(c *ctx, idx int) bool {
 				rep.Violation("C21:rollback-error", fmt.Sprintf("step %d: RollbackTo(%d) from %d: %v", i, t, n, err), caseInfo(i))
 				return false
 			}
-			dd, err := directDumps(chain)
+			dd, err := directDumps(chain, t)
 			if err != nil {
 				rep.Mismatch("direct build failed: "+err.Error(), caseInfo(i))
 				return false
@@ -883,16 +887,16 @@ func replayOne(c *ctx, idx int) bool {
 	// (i) sweep at the end: every rollback target within span, and reprocessing
 	n := len(chain)
 	if n > 0 {
-		dd, err := directDumps(chain)
+		lo := n - c.span
+		if lo < 0 {
+			lo = 0
+		}
+		dd, err := directDumps(chain, lo)
 		if err != nil {
 			rep.Mismatch("direct build failed: "+err.Error(), caseInfo(len(b)-1))
 			return false
 		}
 		fullDump := dd[n]
-		lo := n - c.span
-		if lo < 0 {
-			lo = 0
-		}
 		for t := n - 1; t >= lo; t-- {
 			diffs, a, err := differential(chain, t, dd)
 			if err != nil {
@@ -970,7 +974,7 @@ func demoTwoStatus(chain []*builtBlock, bb *builtBlock, nid int, caseInfo map[st
 		if f != nil {
 			ch = append(append([]*builtBlock{}, base...), build(bb.height+1, f, nid+8, bb.after, 9))
 		}
-		dd, err := directDumps(ch)
+		dd, err := directDumps(ch, n-1)
 		if err != nil {
 			continue
 		}
@@ -1056,6 +1060,15 @@ func main() {
 	switch os.Args[1] {
 	case "probe":
 		probe()
+	case "checkpoint":
+		span := 6
+		if len(os.Args) > 3 {
+			span, _ = strconv.Atoi(os.Args[3])
+		}
+		if len(os.Args) > 4 {
+			specSU, _ = strconv.Atoi(os.Args[4])
+		}
+		checkpointMode(os.Args[2], span)
 	case "replay":
 		span := 6
 		if len(os.Args) > 3 {
@@ -1065,7 +1078,7 @@ func main() {
 			specSU, _ = strconv.Atoi(os.Args[4])
 		}
 		behs := rep.ReadBehaviours(os.Args[2])
-		c := &ctx{span: span, stats: map[string]int{}, seenTwoStatus: map[string]bool{}}
+		c := &ctx{span: span, stats: map[string]int{}, seenTwoStatus: map[string]bool{}, attrCache: map[string]string{}}
 		okN, steps := 0, 0
 		for i, b := range behs {
 			c.beh = b
